@@ -117,8 +117,10 @@ def query_traversal(node, callback, is_table=False, is_target=False, parent_quer
         if node.cte is not None:
             array = []
             for cte in node.cte:
-                node_out = query_traversal(cte.query, callback, parent_query=node) or cte
-                array.append(node_out)
+                node_out = query_traversal(cte.query, callback, parent_query=node)
+                if node_out is not None:
+                    cte.query = node_out
+                array.append(cte)
             node.cte = array
 
         if node.where is not None:
